@@ -24,6 +24,12 @@ HARNESSES = {
         ("varint_roundtrip", "C21.roundtrip", "every v in [-2^55, 2^55): write_varint emits spec_size(v) bytes (shortest), read_varint (strict and lenient) returns v and consumes exactly those bytes"),
         ("varint_decode_total", "C21.decode", "every 9-byte buffer, every available length 0..=9, both modes: no panic; Ok(v) => consumed == 1+leading_ones, v == the two's-complement value denoted, strict => shortest; Err only for empty/0xff/truncated input or (strict) a non-minimal encoding"),
     ],
+    # C20's Verus proof of the 2026 decoders ASSUMES read_varint's contract with exactly the statement these two harnesses
+    # prove on the compiled functions, so they are part of the C20 check
+    "C20": [
+        ("varint_roundtrip", "C20.kani.varint_roundtrip", "every v in [-2^55, 2^55): what write_varint emits is read back by read_varint in strict AND lenient mode as v, consuming exactly those bytes (strict mode accepts every serializer-produced varint)"),
+        ("varint_decode_total", "C20.kani.varint_decode", "every 9-byte buffer, every available length, both modes: read_varint never panics, consumes exactly the declared length, fails only for empty/0xff/truncated input or (strict) a non-minimal encoding"),
+    ],
     "C15": [
         ("prefix_encoder_matches_spec", "C15.kani.prefix_encoder", "every size (u64) and first byte: write_atom_encoding_prefix_with_size emits exactly the format's length prefix; sizes >= 2^34 are refused"),
         ("prefix_decoder_inverts_spec", "C15.kani.prefix_roundtrip", "every size < 2^34: decode_size_with_offset on the format's prefix returns (prefix length, size) and consumes the prefix"),
